@@ -235,7 +235,7 @@ fn coarse_case(ctx: &mut Ctx, mix: &str, events: &[String]) {
             ctx.traces_validated += 1;
             match v["violation"].as_str() {
                 Some(viol) => {
-                    let kind = if viol.starts_with("returned-early") { "returned-early" } else if viol.starts_with("never-returns") { "never-returns" } else { "session-lost-response" };
+                    let kind = if viol.starts_with("returned-early") { "returned-early" } else if viol.starts_with("never-returns") { "never-returns" } else if viol.starts_with("accepts-after-interrupt") { "accepts-after-interrupt" } else { "session-lost-response" };
                     let sig_first = events.first().map(|e| e == "S").unwrap_or(false);
                     ctx.violation(&format!("C18/coarse/{}/{}/{kind}", if mix.is_empty() { "none" } else { mix }, if sig_first { "signal-first" } else { "signal-later" }), true,
                         || json!({"mode": "coarse", "mix": mix, "events": events, "log": v["log"], "violation": viol}));
